@@ -305,12 +305,20 @@ func (o *optimizer) etaReduction() {
 			// the function of a deferred call must stay a frame of its own:
 			// recover() in f only stops a panic when f itself is the deferred function
 			deferred := func() bool {
-				if len(ctx.Stack) < 3 {
+				i, fun := 1, c.Node()
+				for ; i < len(ctx.Stack); i++ { // defer (func() int { return f() })()
+					paren, ok := ctx.Stack[i].(*ast.ParenExpr)
+					if !ok {
+						break
+					}
+					fun = paren
+				}
+				if i+1 >= len(ctx.Stack) {
 					return false
 				}
-				call, _ := ctx.Stack[1].(*ast.CallExpr)
-				d, _ := ctx.Stack[2].(*ast.DeferStmt)
-				return call != nil && d != nil && d.Call == call && call.Fun == c.Node()
+				call, _ := ctx.Stack[i].(*ast.CallExpr)
+				d, _ := ctx.Stack[i+1].(*ast.DeferStmt)
+				return call != nil && d != nil && d.Call == call && call.Fun == fun
 			}
 			if matched(ctx, params, args) && stable(ctx, fun, false) && sameType() && !deferred() {
 				c.Replace(fun)
